@@ -36,6 +36,20 @@ func init() {
 	})
 }
 
+func init() {
+	register(&Property{
+		ID: "C12", Level: "exploration",
+		Rule: "each run draws a client configuration (MaxRetransmits 0-4, RetransmitInterval 10 ms / 1 s / 3 s, advertised applications, configured or local host addresses) and a peer script: answer the k-th CER (or never) with a CEA of one of 10 kinds after a delay placed relative to the retransmit deadline (0, half, -1 ns, on it, +1 ns, after the whole budget, random), an application answer before / directly behind the CEA, disconnect (EOF/RST) at a drawn instant, a stalled CER write, then 0-3 extra CEAs (duplicate success, late failures) interleaved with application answers; the fake clock is advanced from event to event. " +
+			"non-trivial = every run (each has a script); distinct = hash of (configuration classes, script kinds, observed event-kind sequence)",
+		Real: smReal, Stubbed: smStub,
+		Assume: []string{"the first CEA delivered before the dial returns decides; exact ties with the dial's return accept either outcome", "retransmission spacing is measured from the return of one CER write to the start of the next"},
+		Scenarios: []*Scenario{
+			{Name: "dial", Weight: 1, Bubble: true, Run: c12Run},
+		},
+		MustProbes: []string{"handshake-success", "handshake-timeout", "extra-cea-survived", "write-stall", "peer-eof", "peer-rst"},
+	})
+}
+
 // ---------------------------------------------------------------- C11 sweep
 
 var sweepEntryForms = []struct {
